@@ -6,6 +6,7 @@ import (
 	"runtime"
 	"sync"
 	"sync/atomic"
+	"time"
 
 	"github.com/akalin/gopar/gf2"
 	"github.com/akalin/gopar/gf2p16"
@@ -26,6 +27,22 @@ func polyExps(p uint64) []int {
 		}
 	}
 	return out
+}
+
+// divGuarded runs Poly64.Div with a watchdog: a call that does not return is an observation.
+func divGuarded(p, d uint64) (q, r uint64, timedOut bool) {
+	type res struct{ q, r gf2.Poly64 }
+	ch := make(chan res, 1)
+	go func() {
+		qq, rr := gf2.Poly64(p).Div(gf2.Poly64(d))
+		ch <- res{qq, rr}
+	}()
+	select {
+	case x := <-ch:
+		return uint64(x.q), uint64(x.r), false
+	case <-time.After(3 * time.Second):
+		return 0, 0, true
+	}
 }
 
 func runC08(args []string) error {
@@ -161,8 +178,8 @@ func runC08(args []string) error {
 			r := gf2.Poly64(p).Times(gf2.Poly64(q))
 			lg.Emit(tracelog.M{"ev": "ptimes", "p": polyExps(p), "q": polyExps(q), "r": polyExps(uint64(r))})
 			if q != 0 {
-				qq, rr := gf2.Poly64(p).Div(gf2.Poly64(q))
-				lg.Emit(tracelog.M{"ev": "pdiv", "p": polyExps(p), "d": polyExps(q), "q": polyExps(uint64(qq)), "r": polyExps(uint64(rr))})
+				qq, rr, to := divGuarded(p, q)
+				lg.Emit(tracelog.M{"ev": "pdiv", "p": polyExps(p), "d": polyExps(q), "q": polyExps(qq), "r": polyExps(rr), "timeout": to})
 			}
 		}
 	}
@@ -172,8 +189,8 @@ func runC08(args []string) error {
 			r := gf2.Poly64(p).Times(gf2.Poly64(q))
 			lg.Emit(tracelog.M{"ev": "ptimes", "p": polyExps(p), "q": polyExps(q), "r": polyExps(uint64(r))})
 			if q != 0 {
-				qq, rr := gf2.Poly64(p).Div(gf2.Poly64(q))
-				lg.Emit(tracelog.M{"ev": "pdiv", "p": polyExps(p), "d": polyExps(q), "q": polyExps(uint64(qq)), "r": polyExps(uint64(rr))})
+				qq, rr, to := divGuarded(p, q)
+				lg.Emit(tracelog.M{"ev": "pdiv", "p": polyExps(p), "d": polyExps(q), "q": polyExps(qq), "r": polyExps(rr), "timeout": to})
 			}
 		}
 	}
